@@ -2897,6 +2897,70 @@ fn main() {
                                 Err(e) => format!("{{\"client\":\"{}\",\"delivered\":0,\"log\":{}}}", e, sp::json_list(&log)),
                             }
                         }
+                        // resume_with_new_handle: the peer numbers ITS handles by itself: sender "a" attaches (peer handle 5) and
+                        //   detaches without closing; sender "c" attaches and the peer reuses 5 for it; "a" resumes and the peer answers
+                        //   with handle 6. An unsettled message sent on the resumed "a" is accepted and settled by the peer: that send
+                        //   must resolve (the disposition has to be routed to "a", which now answers to 6, not to whoever holds 5).
+                        "resume_with_new_handle" => {
+                            use fe2o3_amqp_types::definitions::{Handle, Role};
+                            use fe2o3_amqp_types::messaging::{Accepted, DeliveryState};
+                            use fe2o3_amqp_types::performatives::{Detach, Disposition, Flow};
+                            let mut attaches = 0usize;
+                            let mut peer_handle_of: std::collections::HashMap<u32, u32> = Default::default();
+                            let peer = tokio::spawn(sp::run(peer_io, sp::PeerCfg { credit: None, ..Default::default() }, move |f: &Frame, _log: &[String]| {
+                                let mut act = sp::Act::default();
+                                match &f.body {
+                                    FrameBody::Attach(a) => {
+                                        let ph = [5u32, 5, 6, 7, 8][attaches.min(4)];
+                                        attaches += 1;
+                                        peer_handle_of.insert(a.handle.0, ph);
+                                        let mut answer = a.clone();
+                                        answer.role = Role::Receiver;
+                                        answer.initial_delivery_count = None;
+                                        answer.unsettled = None;
+                                        answer.handle = Handle(ph);
+                                        act.replies.push(Frame::new(f.channel, FrameBody::Attach(answer)));
+                                        act.replies.push(Frame::new(f.channel, FrameBody::Flow(Flow { next_incoming_id: Some(0), incoming_window: 2048, next_outgoing_id: 0, outgoing_window: 2048, handle: Some(Handle(ph)), delivery_count: Some(0), link_credit: Some(100), available: None, drain: false, echo: false, properties: None })));
+                                        act.handled = true;
+                                    }
+                                    FrameBody::Detach(d) => {
+                                        let ph = peer_handle_of.get(&d.handle.0).copied().unwrap_or(d.handle.0);
+                                        act.replies.push(Frame::new(f.channel, FrameBody::Detach(Detach { handle: Handle(ph), closed: d.closed, error: None })));
+                                        act.handled = true;
+                                    }
+                                    FrameBody::Transfer { performative, .. } => {
+                                        if let Some(id) = performative.delivery_id {
+                                            act.replies.push(Frame::new(f.channel, FrameBody::Disposition(Disposition { role: Role::Receiver, first: id, last: None, settled: true, state: Some(DeliveryState::Accepted(Accepted {})), batchable: false })));
+                                        }
+                                    }
+                                    _ => {}
+                                }
+                                act
+                            }));
+                            let client = tokio::time::timeout(Duration::from_secs(12), async {
+                                let mut conn = fe2o3_amqp::Connection::builder().container_id("client").open_with_stream(client_io).await.map_err(|_| "open_failed")?;
+                                let mut session = fe2o3_amqp::Session::begin(&mut conn).await.map_err(|_| "begin_failed")?;
+                                let mut a = fe2o3_amqp::Sender::attach(&mut session, "a", "q1").await.map_err(|_| "attach_a_failed")?;
+                                let first = matches!(tokio::time::timeout(Duration::from_millis(1500), a.send("before")).await, Ok(Ok(_)));
+                                let detached = tokio::time::timeout(Duration::from_secs(2), a.detach()).await.map_err(|_| "detach_timeout")?.map_err(|_| "detach_failed")?;
+                                let mut c = fe2o3_amqp::Sender::attach(&mut session, "c", "q2").await.map_err(|_| "attach_c_failed")?;
+                                let mut a = tokio::time::timeout(Duration::from_secs(2), detached.resume()).await.map_err(|_| "resume_timeout")?.map_err(|_| "resume_failed")?;
+                                let after = matches!(tokio::time::timeout(Duration::from_millis(1500), a.send("after")).await, Ok(Ok(_)));
+                                let other = matches!(tokio::time::timeout(Duration::from_millis(1500), c.send("other")).await, Ok(Ok(_)));
+                                let _ = tokio::time::timeout(Duration::from_secs(1), a.close()).await;
+                                let _ = tokio::time::timeout(Duration::from_secs(1), c.close()).await;
+                                let _ = tokio::time::timeout(Duration::from_secs(1), session.end()).await;
+                                let _ = tokio::time::timeout(Duration::from_secs(1), conn.close()).await;
+                                Ok::<_, &'static str>((first, after, other))
+                            })
+                            .await
+                            .unwrap_or(Err("hang"));
+                            let log = tokio::time::timeout(Duration::from_secs(2), peer).await.ok().and_then(|r| r.ok()).unwrap_or_default();
+                            match client {
+                                Ok((first, after, other)) => format!("{{\"client\":\"ok\",\"send_before_detach_settled\":{},\"send_after_resume_settled\":{},\"send_on_the_other_link_settled\":{},\"log\":{}}}", first, after, other, sp::json_list(&log)),
+                                Err(e) => format!("{{\"client\":\"{}\",\"send_before_detach_settled\":false,\"send_after_resume_settled\":false,\"send_on_the_other_link_settled\":false,\"log\":{}}}", e, sp::json_list(&log)),
+                            }
+                        }
                         // link_split <pieces>: the peer's attach carries max-message-size 16; the client sends ONE message
                         //   whose payload is cut into <pieces> transfers by the link. All frames of the delivery must carry
                         //   the first frame's delivery-id or none, `more` on all but the last, and add up to the payload.
